@@ -16,7 +16,12 @@ MODULES = ['trees', 'treeinput', 'treeoutput', 'transform', 'transformconst',
 
 
 class AnalysisError(Exception):
-    """An anchor the analysis needs is gone or has a shape it does not model."""
+    """An anchor the analysis needs is gone (module, function, registry): the run cannot give a verdict."""
+
+
+class Unrecognised(AnalysisError):
+    """A construct inside an existing anchor has a shape the rule does not model: the rule gives no verdict
+    for it (reported as undecided), it is neither a pass nor an alarm."""
 
 
 # --------------------------------------------------------------------------- program model
@@ -725,9 +730,39 @@ def norm_test(expr, pol=True):
     return ('opaque', unparse(expr), pol)
 
 
+def _unique_assign(func, name):
+    """The value of the only assignment to local `name` in the function (None if not unique or not simple)."""
+    vals = []
+    for x in walk_own(func.node):
+        if isinstance(x, ast.Assign):
+            for t in x.targets:
+                if isinstance(t, ast.Name) and t.id == name:
+                    vals.append(x.value)
+                elif isinstance(t, (ast.Tuple, ast.List)) and any(isinstance(e, ast.Name) and e.id == name for e in t.elts):
+                    vals.append(None)
+        elif isinstance(x, (ast.AugAssign, ast.AnnAssign)) and isinstance(x.target, ast.Name) and x.target.id == name:
+            vals.append(None)
+        elif isinstance(x, (ast.For, ast.comprehension)) and name in [y.id for y in ast.walk(x.target) if isinstance(y, ast.Name)]:
+            vals.append(None)
+    if len(vals) == 1 and vals[0] is not None and name not in func.params:
+        return vals[0]
+    return None
+
+
 def facts_at(cfg, n):
-    """Normal forms of the atomic conditions that hold on every path reaching node n."""
-    return [(norm_test(a.ast, a.pol), a.id) for a in cfg.assumes_at(n)]
+    """Normal forms of the atomic conditions that hold on every path reaching node n.  A condition that
+    merely tests a local flag (`if not discontinuous:`) is expanded through the flag's only definition
+    (`discontinuous = 0 < gap_degree(tree)`)."""
+    out = []
+    for a in cfg.assumes_at(n):
+        fa = norm_test(a.ast, a.pol)
+        out.append((fa, a.id))
+        if fa[0] == 'truthy' and fa[1].isidentifier():
+            v = _unique_assign(cfg.func, fa[1])
+            if isinstance(v, (ast.Compare, ast.BoolOp, ast.UnaryOp)):
+                for (e, p) in split_assumes(v, fa[2]):
+                    out.append((norm_test(e, p), a.id))
+    return out
 
 
 MUTATORS = {'append', 'remove', 'pop', 'extend', 'insert', 'clear', 'sort', 'reverse', 'update',
